@@ -12,7 +12,7 @@ namespace Leptos.Async
 
 def AwOK (ld : Bool) (a : Aw) : Prop :=
   (a.done = false → a.woken = true ∨ a.parked = true) ∧ (a.parked = true → ld = true) ∧
-  (a.done = true → a.kind ≠ .tick → a.result ≠ none)
+  (a.done = true → a.kind ≠ .tick → a.aborted = false → a.result ≠ none)
 
 theorem AwOK.wake {ld : Bool} {a : Aw} (h : AwOK ld a) : AwOK false (wakeAw a) := by
   unfold AwOK wakeAw at *; split <;> simp_all
@@ -22,7 +22,15 @@ theorem AwOK.loading {ld : Bool} {a : Aw} (h : AwOK ld a) : AwOK true a := by
 
 theorem AwOK.poll {ld : Bool} {v : Option Val} {a : Aw} (h : AwOK ld a) (hv : ld = false → v ≠ none) :
     AwOK ld (pollAw ld v a) := by
-  unfold AwOK pollAw at *; (repeat' split) <;> simp_all
+  unfold AwOK pollAw at *
+  split
+  · rename_i hk
+    refine ⟨by simp, by simp, ?_⟩
+    intro _ h1 h2
+    rcases hk with hk | hk
+    · exact absurd hk h1
+    · rw [h2] at hk; exact absurd hk (by decide)
+  · split <;> simp_all
 
 theorem awAll_wake {ld : Bool} {l : List Aw} (h : ∀ a ∈ l, AwOK ld a) :
     ∀ a ∈ l.map wakeAw, AwOK false a := by
@@ -276,6 +284,43 @@ theorem Inv.attach {s : State} (h : Inv s) : Inv { s with aws := s.aws ++ [{}] }
   · exact aw a ha
   · subst ha; simp [AwOK]
 
+theorem Inv.attachS {s : State} (h : Inv s) :
+    Inv { s with aws := s.aws ++ [{ kind := .saw }], noReader := false } := by
+  obtain ⟨⟨r1, r2, r7, m1, aw, s1, s2, t1⟩, ⟨r3, r4, r5, r6, fresh⟩, ⟨e1, e2, e3, e5, e6, e7, e8⟩, ⟨w1, w2, w3⟩⟩ := h
+  have htl : s.tickFired = false →
+      (s.nf = 1 ∧ s.tick0 = true) ∨ (s.aws ++ [({ kind := .saw } : Aw)]).any (isTickOf s.nf) = true :=
+    fun hf => tickLive_append _ (t1 hf)
+  inv_cases <;> (try exact htl) <;> simp_all [lastSeen, inputsNow]
+  intro a ha
+  rcases ha with ha | ha
+  · exact aw a ha
+  · subst ha; simp [AwOK]
+
+theorem AwOK.drop {ld : Bool} {a : Aw} (h : AwOK ld a) : AwOK ld (dropAw a) := by
+  unfold AwOK dropAw at *; (repeat' split) <;> simp_all
+
+theorem isTickOf_dropAw (nf : Nat) (a : Aw) : isTickOf nf (dropAw a) = isTickOf nf a := by
+  unfold isTickOf dropAw; (repeat' split) <;> simp_all
+
+theorem anyTick_drop (nf : Nat) (l : List Aw) : (l.map dropAw).any (isTickOf nf) = l.any (isTickOf nf) := by
+  induction l with
+  | nil => rfl
+  | cons a as ih => simp only [List.map_cons, List.any_cons, isTickOf_dropAw, ih]
+
+/-- the readers under the boundary are disposed: reader tasks lose their handle, awaiters are dropped -/
+theorem Inv.bdrop {s : State} (h : Inv s) : Inv (bdrop s) := by
+  obtain ⟨⟨r1, r2, r7, m1, aw, s1, s2, t1⟩, ⟨r3, r4, r5, r6, fresh⟩, ⟨e1, e2, e3, e5, e6, e7, e8⟩, ⟨w1, w2, w3⟩⟩ := h
+  have haw : ∀ a ∈ s.aws.map dropAw, AwOK s.loading a := by
+    intro a ha
+    rcases List.mem_map.mp ha with ⟨b, hb, rfl⟩
+    exact (aw b hb).drop
+  have htl : s.tickFired = false → (s.nf = 1 ∧ s.tick0 = true) ∨ (s.aws.map dropAw).any (isTickOf s.nf) = true := by
+    intro hf
+    rw [anyTick_drop]
+    exact t1 hf
+  unfold Async.bdrop
+  inv_cases <;> (try exact htl) <;> (try exact haw) <;> simp_all [lastSeen, inputsNow]
+
 theorem Inv.pollA {s : State} (h : Inv s) (i : Nat) : Inv (pollA s i) := by
   obtain ⟨⟨r1, r2, r7, m1, aw, s1, s2, t1⟩, ⟨r3, r4, r5, r6, fresh⟩, ⟨e1, e2, e3, e5, e6, e7, e8⟩, ⟨w1, w2, w3⟩⟩ := h
   have htl : (s.tickFired || tickFires s.nf s.aws[i]?) = false →
@@ -429,6 +474,7 @@ macro "pr_frame" : tactic => `(tactic| (simp only [postReads]))
 @[simp] theorem postReads_readSince (s : State) : (postReads s).readSince = s.readSince := by pr_frame
 @[simp] theorem postReads_coveredCur (s : State) : (postReads s).coveredCur = s.coveredCur := by pr_frame
 @[simp] theorem postReads_msetDuring (s : State) : (postReads s).msetDuring = s.msetDuring := by pr_frame
+@[simp] theorem postReads_noReader (s : State) : (postReads s).noReader = s.noReader := by pr_frame
 theorem postReads_curInputs_memo (s : State) (h : s.viaMemo = true) : (postReads s).curInputs = s.curInputs := by
   simp [postReads, h]
 
@@ -542,7 +588,7 @@ theorem fetchState_cases (s : State) :
         smVal := (if s.smDirty then s.src else s.smVal), smRc := (if s.smDirty then s.rc else s.smRc),
         smDirty := false, initialFut := false,
         firstRun := false, loading := true, version := s.version + 1, fetchVersion := s.version + 1,
-        idsHeld := s.susp, pending := s.pending + s.susp, susp := 0, coveredCur := s.readSince,
+        idsHeld := s.susp, pending := s.pending + s.susp, susp := 0, coveredCur := decide (0 < s.susp),
         readSince := false, msetDuring := false, dataReg := false,
         pc := .fetching }) ∨
     (fetchState s =
@@ -557,7 +603,7 @@ theorem fetchState_cases (s : State) :
         run := (if s.viaMemo then s.run else Run.execAll s.src s.fx.sync {}),
         dSub := s.dSub ++ (if s.viaMemo then s.run else Run.execAll s.src s.fx.sync {}).log.map (·.1),
         firstRun := false, loading := true, version := s.version + 1, fetchVersion := s.version + 1,
-        idsHeld := s.susp, pending := s.pending + s.susp, susp := 0, coveredCur := s.readSince,
+        idsHeld := s.susp, pending := s.pending + s.susp, susp := 0, coveredCur := decide (0 < s.susp),
         readSince := false, msetDuring := false, dataReg := false,
         tickFired := !s.isLocal,
         aws := (if s.isLocal then s.aws ++ [{ kind := .tick, tag := s.nf + 1 }] else s.aws),
@@ -764,13 +810,14 @@ structure Frame (s s' : State) : Prop where
   fx : s'.fx = s.fx
   dstate : s'.dstate = s.dstate
   stolen : s'.stolen = s.stolen
+  noReader : s'.noReader = s.noReader
 
 theorem Frame.refl (s : State) : Frame s s := by
   constructor <;> simp
 
 theorem Frame.trans {a b c : State} (h1 : Frame a b) (h2 : Frame b c) : Frame a c := by
-  obtain ⟨_, _, _, _, _, _, _, _, _, _, _, _, _, _, _, _, _, _, _, _, _, _, _, _, _, _, _, _, _, _, _, _, _, _, _, _, _, _, _, _, _, _⟩ := h1
-  obtain ⟨_, _, _, _, _, _, _, _, _, _, _, _, _, _, _, _, _, _, _, _, _, _, _, _, _, _, _, _, _, _, _, _, _, _, _, _, _, _, _, _, _, _⟩ := h2
+  obtain ⟨_, _, _, _, _, _, _, _, _, _, _, _, _, _, _, _, _, _, _, _, _, _, _, _, _, _, _, _, _, _, _, _, _, _, _, _, _, _, _, _, _, _, _⟩ := h1
+  obtain ⟨_, _, _, _, _, _, _, _, _, _, _, _, _, _, _, _, _, _, _, _, _, _, _, _, _, _, _, _, _, _, _, _, _, _, _, _, _, _, _, _, _, _, _⟩ := h2
   constructor <;> simp_all
 
 theorem Frame.dAsSource (s : State) : Frame s (dAsSource s).1 := by
@@ -863,7 +910,7 @@ theorem effUpdate_inv {s : State} (dc : DCore s) (dr : DRest s)
     have hfr := Frame.effAny L s
     generalize effAny L s = r at *
     obtain ⟨f1, f2, f3, f4, f5, f6, f7, f8, f9, f10, f11, f12, f13, f14, f19, f20, f21,
-      f22, f23, f24, f25, f26, g1, g2, g3, g6, g7, k1, k2, k3, k4, k5, k6, n1, n2, n3, n4, u1, u2, u3, g4, g5⟩ := hfr
+      f22, f23, f24, f25, f26, g1, g2, g3, g6, g7, k1, k2, k3, k4, k5, k6, n1, n2, n3, n4, u1, u2, u3, g4, g5, g8⟩ := hfr
     refine ⟨⟨?_, ?_, ?_, ?_, ?_, ?_, ?_, ?_⟩, ⟨?_, ?_, ?_, ?_, ?_⟩, ?_, ?_, ?_, ?_, ?_, ?_, ?_, ?_, ?_⟩ <;>
       simp_all [lastSeen, inputsNow, tickLive]
 
@@ -958,6 +1005,8 @@ theorem Inv.step {s : State} (h : Inv s) (e : Event) : Inv (step s e) := by
   | poll j => exact h.pollNth j
   | get => exact h
   | bread => exact h.bread
+  | attachS => exact h.attachS
+  | bdrop => exact h.bdrop
 
 theorem Inv.foldl {s : State} (h : Inv s) (es : List Event) : Inv (es.foldl Async.step s) := by
   induction es generalizing s with
